@@ -1,6 +1,7 @@
 """C06: operand values are encoded exactly or rejected, never silently truncated."""
 import json
 import random
+import re
 
 from .. import common as C
 from .. import codec as K
@@ -29,16 +30,31 @@ def run(tier, seed):
     forms = [f for f in K.corpus(set(by_name)) if f[0] not in skip]
     percpu = {}
     for cpu, text in forms:
-        if K.NUM.search(text):
+        if K.NUM.search(text) or re.match(r"^[A-Za-z_]\w*:\s*\S", text):
             percpu.setdefault(cpu, []).append(text)
-    cases, meta = [], {}
+    cases, meta, relvals, relbase = [], {}, {}, {}
     n = 0
     for cpu, texts in sorted(percpu.items()):
         texts = sorted(set(texts))
         ts = texts        # both tiers probe every corpus form (the whole run takes about half a minute)
         for text in ts:
             if ":" in text.split()[0]:
-                continue        # label definitions change the program, not an operand
+                # `main: jmp main`: a PC-relative (or page-relative) operand.  The label is replaced by absolute targets
+                # A + 4 * v for the probe values v (multiples of 4: alignment is not what is probed), assembled at A
+                m = re.match(r"^([A-Za-z_]\w*):\s*(.+)$", text)
+                if not m or not re.search(r"(?<![\w.$])%s(?![\w])" % re.escape(m.group(1)), m.group(2)):
+                    continue
+                # two load addresses: 0x8000 (inside every address space) and 64 MiB (room for displacements down to -2^26)
+                for base in (0x8000, 0x4000000):
+                    tv = [(w, v) for w, v in vals if 0 <= base + 4 * v < (1 << 31)]
+                    variants = [re.sub(r"(?<![\w.$])%s(?![\w])" % re.escape(m.group(1)), str(base + 4 * v), m.group(2)) for _, v in tv]
+                    cid = "r%d" % n
+                    n += 1
+                    meta[cid] = (cpu, text, -1)
+                    relbase[cid] = base
+                    relvals[cid] = [(list((base + 4 * v).to_bytes(8, "little")), base + 4 * v) for _, v in tv]
+                    cases.append((cid, "kind=asm cpu=%s addr=%d" % (cpu, base), "\n".join(variants)))
+                continue
             for pos, variants in K.probe_texts(text, [v for _, v in vals]):
                 cid = "g%d" % n
                 n += 1
@@ -53,7 +69,8 @@ def run(tier, seed):
         if o is None or o.get("died"):
             chk.report("C06:%s:died:%s" % (cpu, K.shape(text)), "assembler died probing .%s '%s': %s" % (cpu, text, o), dict(case=c[:2], observed=o))
             continue
-        probes = [{"v": vals[i][0], "acc": r[0], "b": list(bytes.fromhex(r[1]))} for i, r in enumerate(o["res"])]
+        vl = relvals.get(c[0], vals)
+        probes = [{"v": vl[i][0], "acc": r[0], "b": list(bytes.fromhex(r[1]))} for i, r in enumerate(o["res"])]
         events.append({"id": c[0], "kind": "probe", "cpu": cpu, "probes": probes})
 
     canaries = set()
@@ -79,6 +96,13 @@ def run(tier, seed):
             continue
         cpu, text, pos = meta[vid]
         i, j = v["pairs"][0]
+        if vid in relvals:
+            vl = relvals[vid]
+            chk.report("C06:%s:%s@target" % (cpu, K.shape(text)),
+                       ".%s '%s' assembled at 0x%x: targets 0x%x and 0x%x are both accepted and give the same bytes %s" % (
+                           cpu, text, relbase[vid], vl[i - 1][1], vl[j - 1][1], byid[vid]["res"][i - 1][1]),
+                       dict(cpu=cpu, form=text, operand="target", v1=vl[i - 1][1], v2=vl[j - 1][1], bytes=byid[vid]["res"][i - 1][1]))
+            continue
         chk.report("C06:%s:%s@%d" % (cpu, K.shape(text), pos),
                    ".%s '%s' operand %d: values %d and %d are both accepted and give the same bytes %s" % (
                        cpu, text, pos, vals[i - 1][1], vals[j - 1][1], byid[vid]["res"][i - 1][1]),
